@@ -325,6 +325,8 @@ func typeMembers(tier string, cfg gen.Config) []member {
 		{Kind: "array", Items: &fam.Spec{Kind: "integer", Null: "after"}},
 		// formats the generator has no type for (OpenAPI width hints, e-mail): annotations, the mapping is that of the bare type
 		{Kind: "integer", Format: "int32"}, {Kind: "integer", Format: "int64"}, {Kind: "number", Format: "double"}, {Kind: "string", Format: "email"},
+		// the anything-schema ({} / true) as a property and as array items: every JSON value is valid, the Go type is interface{}
+		{Kind: "any"}, {Kind: "array", Items: &fam.Spec{Kind: "any"}},
 	}
 	// goJSONSchema.type overrides (with imports / nillable), required and optional, next to a plain sibling
 	for _, ov := range []struct {
@@ -354,6 +356,9 @@ func typeMembers(tier string, cfg gen.Config) []member {
 		for _, pos := range positions {
 			if sp.Kind == "object" && len(sp.Props) == 0 && pos[:3] == "def" {
 				continue
+			}
+			if sp.Kind == "any" && (strings.HasPrefix(pos, "nullable") || pos[:3] == "def") {
+				continue // "anything or null" is anything; an anything-definition is the listed interface{} shortcut
 			}
 			if sp.Kind == "array" && sp.Items == nil && pos[:3] == "def" {
 				continue // generation fails loudly for an item-less array behind a definition (observation, DESIGN.md §7)
